@@ -323,6 +323,39 @@ class Translator:
                     out = out * (lo + k)
                 return out
             raise Unsupported(f"trip count `{n}` of `{norm(args[0])}` is not a literal after substitution")
+        if f in ("functools.reduce", "reduce") and len(args) in (2, 3) and not kw and isinstance(args[1], ast.Call) and norm(args[1].func) == "range" and 1 <= len(args[1].args) <= 2:
+            # a left fold with an operator-module function over a range whose length is a literal after substitution
+            ops = {"operator.mul": lambda a, b: a * b, "operator.truediv": lambda a, b: a / b, "operator.add": lambda a, b: a + b, "operator.sub": lambda a, b: a - b,
+                   "mul": lambda a, b: a * b, "truediv": lambda a, b: a / b, "add": lambda a, b: a + b, "sub": lambda a, b: a - b}
+            opf = ops.get(norm(args[0]))
+            if opf is None and isinstance(args[0], ast.Lambda) and len(args[0].args.args) == 2:
+                pa, pb = (x.arg for x in args[0].args.args)
+                lam = args[0]
+
+                def opf(a, b, _pa=pa, _pb=pb, _lam=lam):
+                    saved = dict(self.env)
+                    self.env[_pa], self.env[_pb] = a, b
+                    try:
+                        return self.tr(_lam.body)
+                    finally:
+                        self.env = saved
+            if opf is None:
+                raise Unsupported(f"fold function `{norm(args[0])}`")
+            ra = [self.tr(a) for a in args[1].args]
+            lo, hi = (sp.Integer(0), ra[0]) if len(ra) == 1 else (ra[0], ra[1])
+            n = sp.simplify(hi - lo)
+            if not n.is_Integer:
+                raise Unsupported(f"trip count `{n}` of `{norm(args[1])}` is not a literal after substitution")
+            items = [lo + k for k in range(max(0, int(n)))]
+            if len(args) == 3:
+                acc = self.tr(args[2])
+            elif items:
+                acc, items = items[0], items[1:]
+            else:
+                raise Unsupported("reduce of an empty range without an initial value raises TypeError")
+            for it_ in items:
+                acc = opf(acc, it_)
+            return acc
         if f in ("np.array", "np.asarray", "numpy.array", "numpy.asarray") and len(args) == 1 and set(kw) <= {"dtype"}:
             x = self.tr(args[0])
             if isinstance(x, (list, tuple)) and x and all(isinstance(r, (list, tuple)) for r in x) and len({len(r) for r in x}) == 1:
